@@ -525,9 +525,16 @@ def run_cds(ctx: Ctx, scratch: str):
         m_obs = [[int(x) for x in o] for o in m_obs]
         m_store_c = sorted(from_codes(k)[plen:] + "|" + from_codes(v) for k, v in m_store)
         m_lru_c = [from_codes(k)[plen:] for k in m_lru]
+        n_alloc = 0
         for o in obs:
             if o[0] == 0:
                 routed["external" if from_codes(o[1:]).startswith(prefix) else "inline"] += 1
+                n_alloc += 1
+            elif o[0] == 1:
+                if o[1] < n_alloc:
+                    routed["alias_hits"] += 1       # resolve handed out an object that was already live
+                else:
+                    n_alloc += 1
             elif o[0] == 2:
                 routed["keyerror"] += 1
         if obs != m_obs or store != m_store_c or lru != m_lru_c:
